@@ -121,16 +121,29 @@ func VH_C12_update(h *vrt.H) {
 	h.Reach("end")
 }
 
-// VH_C12_claim: Claim queues exactly what was accrued and zeroes the balances.
+// VH_C12_claim: a batch of claims queues, per validator, exactly what was accrued (once)
+// and zeroes the balances; a claim naming an unknown validator fails the batch.
 func VH_C12_claim(h *vrt.H) {
 	k, ctx := vhKeeper(h)
 	vhMust(k.EthTxQueue.Set(ctx, types.EthTxQueue{}))
-	r, g := h.Int("reward", "0", vhBig), h.Int("gasReward", "0", vhBig)
-	vhMust(k.Validators.Set(ctx, vhAddr(0), types.Validator{Reward: r, GasReward: g, Status: types.Active}))
-	req := &goattypes.ClaimRequest{Id: h.U64("id")}
-	copy(req.Validator[:], vhAddr(h.Choose("who", 0, 1)))
-	copy(req.Recipient[:], h.Bytes("recipient", 20))
-	err := k.Claim(ctx, []*goattypes.ClaimRequest{req})
+	const nVal = 2
+	r := make([]math.Int, nVal)
+	g := make([]math.Int, nVal)
+	for i := 0; i < nVal; i++ {
+		r[i], g[i] = h.Int(h.Name("reward", i), "0", vhBig), h.Int(h.Name("gasReward", i), "0", vhBig)
+		vhMust(k.Validators.Set(ctx, vhAddr(i), types.Validator{Reward: r[i], GasReward: g[i], Status: types.Active}))
+	}
+	nReq := h.Choose("nClaims", 1, 3)
+	var reqs []*goattypes.ClaimRequest
+	who := make([]int, nReq)
+	for j := 0; j < nReq; j++ {
+		who[j] = h.Choose(h.Name("who", j), 0, nVal) // nVal = unknown validator
+		req := &goattypes.ClaimRequest{Id: h.U64(h.Name("id", j))}
+		copy(req.Validator[:], vhAddr(who[j]))
+		copy(req.Recipient[:], h.Bytes(h.Name("recipient", j), 20))
+		reqs = append(reqs, req)
+	}
+	err := k.Claim(ctx, reqs)
 	q, qerr := k.EthTxQueue.Get(ctx)
 	vhMust(qerr)
 	if err != nil {
@@ -138,10 +151,26 @@ func VH_C12_claim(h *vrt.H) {
 		h.Reach("unknown-validator")
 		return
 	}
-	v, verr := k.Validators.Get(ctx, vhAddr(0))
-	vhMust(verr)
-	h.Assert(len(q.Rewards) == 1 && q.Rewards[0].Id == req.Id && q.Rewards[0].Goat.Equal(r) && q.Rewards[0].Gas.Equal(g), "claim-queues-accrued")
-	h.Assert(v.Reward.IsZero() && v.GasReward.IsZero(), "claim-zeroes-accrued")
-	h.Assert(string(q.Rewards[0].Recipient) == string(req.Recipient[:]), "claim-recipient")
+	h.Assert(len(q.Rewards) == nReq, "one-queue-entry-per-claim")
+	for i := 0; i < nVal; i++ {
+		paidR, paidG := math.ZeroInt(), math.ZeroInt()
+		claimed := false
+		for j := 0; j < nReq && j < len(q.Rewards); j++ {
+			h.Assert(who[j] < nVal, "claims-for-unknown-validators-fail")
+			if who[j] == i {
+				claimed = true
+				paidR, paidG = paidR.Add(q.Rewards[j].Goat), paidG.Add(q.Rewards[j].Gas)
+				h.Assert(q.Rewards[j].Id == reqs[j].Id && string(q.Rewards[j].Recipient) == string(reqs[j].Recipient[:]), "queued-claim-carries-the-request")
+			}
+		}
+		v, verr := k.Validators.Get(ctx, vhAddr(i))
+		vhMust(verr)
+		if claimed {
+			h.Assert(paidR.Equal(r[i]) && paidG.Equal(g[i]), "accrued-reward-is-paid-exactly-once")
+			h.Assert(v.Reward.IsZero() && v.GasReward.IsZero(), "claim-zeroes-accrued")
+		} else {
+			h.Assert(v.Reward.Equal(r[i]) && v.GasReward.Equal(g[i]), "unclaimed-balances-untouched")
+		}
+	}
 	h.Reach("claimed")
 }
